@@ -394,3 +394,7 @@ def run(chk, repo, tier):
 
     # ---- R06.6 ----------------------------------------------------------
     c01.linear_forms(chk, repo, rule='R06.6', rule_try='R06.6')
+    # ---- R06.7 the wrapper's delegate enforces the wrapper's own range --------
+    from . import c05
+    c05.check_wrapper(chk, repo, rule_delegate='R06.7')
+
